@@ -86,6 +86,8 @@ def configs(tier):
                     out.append(dict(entry='Gillespie_complex_contagion', model=model, graph=g, ic=ic, full=full, max_expo=E, truncate=True,
                                     wstub='abstract', tags=[model, g, 'full' if full else 'plain']))
                 if g == 'P3' and ic == _ics(model, n, tier)[0]:
+                    out.append(dict(entry='Gillespie_complex_contagion', model=model, graph=g, ic=ic, full=False, max_expo=E, truncate=True,
+                                    return_order='reversed', wstub='abstract', tags=[model, g, 'return-order']))
                     # parameters=None (the user functions then receive an empty tuple)
                     out.append(dict(entry='Gillespie_complex_contagion', model=model, graph=g, ic=ic, full=False, max_expo=E, truncate=True,
                                     no_parameters=True, wstub='abstract', tags=[model, g, 'parameters=None']))
@@ -190,7 +192,8 @@ def run_path(h, cfg):
             return tuple(res)
         return res
     f = EoN.Gillespie_complex_contagion
-    ret = h.call_must_succeed('no-exception', f, G, rate_function, transition_choice, get_influence_set, IC, tuple(m['statuses']),
+    rs = list(reversed(m['statuses'])) if cfg.get('return_order') == 'reversed' else list(m['statuses'])
+    ret = h.call_must_succeed('no-exception', f, G, rate_function, transition_choice, get_influence_set, IC, tuple(rs),
                               tmin=tmin, tmax=tmax, parameters=user_params, return_full_data=cfg['full'])
     h.truncated = stub.truncated
     if ret is None:
@@ -224,7 +227,7 @@ def run_path(h, cfg):
         got = [{s: int(D[s][i]) for s in m['statuses']} for i in range(len(t))]
     else:
         t = list(ret[0])
-        got = [{s: int(ret[j + 1][i]) for j, s in enumerate(m['statuses'])} for i in range(len(t))]
+        got = [{s: int(ret[j + 1][i]) for j, s in enumerate(rs)} for i in range(len(t))]
         h.require('new-status-is-chooser-answer', len(t) == len(rows), {'rows': len(t), 'chooser_calls': len(answers)})
     want = [{s: r.get(s, 0) for s in m['statuses']} for r in rows]
     if got == want:
